@@ -42,6 +42,8 @@ def classify(c, code, out):
     kind = "JMP" if name == "JMP" else "CALL" if name == "CALL" else "JCC"
     if mode == 32:
         return None                                        # rel32 forms of exactly the sizes pass 1 reserves
+    if c.get("over"):
+        n = max(0, len(out) - c["off"] - 1 - (3 if kind == "CALL" else 2))     # bytes between the branch and its target
     if direction == "fwd":
         est = 3 if kind == "CALL" else 2
         rel = est + n
@@ -92,6 +94,10 @@ def run(v, tier, rng):
     sk = [st for st, _ in G.one_stmt_skeleton(tier == "thorough")]
     sk = sk[::(3 if tier == "thorough" else 9)] + [st for st, _ in G.mem_skeleton(tier == "thorough")][::(5 if tier == "thorough" else 41)]
     mids = [[f] for f in far] + [[st] for st in sk] + [[far[0], st] for st in sk[::7]]
+    # ... and over another, backward, branch at the distances where its short form ends (rel8 = -128 is 126 filler bytes)
+    for bn in (0, 100, 125, 126):
+        for bname in ("JMP", "JNE", "JC"):
+            mids.append([("label", "back"), ("mn", "RESB", [A.num(bn)]), ("mn", bname, [A.ident("back")]), ("op", "NOP")])
     for mode in (16, 32):
         for name in ("JMP", "JE", "CALL"):
             for mid in mids:
